@@ -254,16 +254,14 @@ def cert_points(rng, tier):
             return [p for p in sp if not on_cut(name, (p[1], p[2]))]
         chosen = []
         for c, k in (("q1", 2), ("q2", 2), ("q3", 2), ("q4", 2), ("axis+x", 1), ("axis-x", 1), ("axis+y", 1), ("axis-y", 1),
-                     ("bp0", 1), ("bp+1", 1), ("bp-1", 1), ("bp+i", 1), ("bp-i", 1),
-                     ("cut-real-above", 1), ("cut-real-below", 1), ("cut-imag-right", 1), ("cut-imag-left", 1)):
+                     ("bp0", 1), ("bp+1", 1), ("bp-1", 1), ("bp+i", 1), ("bp-i", 1)):
             pool = [p for p in cats[c] if not on_cut(name, (p[1], p[2]))]
             pool = g.shuffle(pool)
             chosen += pool[:k]
-        # the two sides of the function's own cut, at the same abscissa
+        # both sides of the real and of the imaginary axis (where every cut lies), at the same abscissa
         for (ca, cb) in (("cut-real-above", "cut-real-below"), ("cut-imag-right", "cut-imag-left")):
             i = g.below(len(cats[ca]))
-            for p in (cats[ca][i], cats[cb][i]):
-                if p not in chosen: chosen.append(p)
+            chosen += [cats[ca][i], cats[cb][i]]
         return chosen
     for name in UNARY:
         plan[name] = [[('c', (p[1], p[2]))] for p in pick(name)]
